@@ -9,6 +9,22 @@ from watchdog.utils.delayed_queue import DelayedQueue
 D = 10.0
 
 
+class El:
+    """distinct objects that all compare equal (InotifyEvent compares by key: equal events are common)"""
+
+    def __init__(self, name):
+        self.name = name
+
+    def __eq__(self, other):
+        return isinstance(other, El)
+
+    def __hash__(self):
+        return 1
+
+    def __repr__(self):
+        return self.name
+
+
 class FakeTime:
     def __init__(self):
         self.now = 1000.0
@@ -126,14 +142,15 @@ class GateLock:
         self.release()
 
 
-def scen_remove_head_before_pop(delayed):
+def scen_remove_head_before_pop(delayed, equal=False):
     """consumer peeked head A and released the lock; remover takes A out; consumer must not return A nor lose B"""
     def body(ft):
         q = DelayedQueue(D)
         gl = GateLock(q._lock)
         q._lock = gl
-        q.put("A", delay=delayed)
-        q.put("B", delay=False)
+        A, B = (El("A"), El("B")) if equal else ("A", "B")
+        q.put(A, delay=delayed)
+        q.put(B, delay=False)
         got = []
         if delayed:
             reached, go = threading.Event(), threading.Event()
@@ -146,14 +163,14 @@ def scen_remove_head_before_pop(delayed):
         if not reached.wait(3):
             go.set(); t.join(2)
             return ["consumer never reached the park point"]
-        r = q.remove(lambda e: e == "A")
+        r = q.remove(lambda e: e is A)
         go.set()
         t.join(3)
         out = []
-        if r != "A":
+        if r is not A:
             out.append(f"remove returned {r!r} instead of 'A'")
-        if got != ["B"]:
-            out.append(f"after A was removed while the consumer waited on it, get() returned {got!r} (expected ['B'])")
+        if len(got) != 1 or got[0] is not B:
+            out.append(f"after A was removed while the consumer waited on it, get() returned {got!r} (expected ['B']{'; A and B are distinct objects that compare equal' if equal else ''})")
         r2 = q.remove(lambda e: True)
         if r2 is not None:
             out.append(f"queue should be empty, still holds {r2!r}")
@@ -198,14 +215,15 @@ def scen_get_during_remove_scan():
     return with_fake(body)
 
 
-def scen_second_delayed_not_early():
+def scen_second_delayed_not_early(equal=False):
     """consumer sleeps on delayed A; B (delayed, put later) is queued; A is removed; the consumer must not hand out
     B before B's own delay has elapsed"""
     def body(ft):
         q = DelayedQueue(D)
-        q.put("A", delay=True)
+        A, B = (El("A"), El("B")) if equal else ("A", "B")
+        q.put(A, delay=True)
         ft.now += D / 2
-        q.put("B", delay=True)
+        q.put(B, delay=True)
         tB = ft.now
         got = []
         reached, go = threading.Event(), threading.Event()
@@ -215,16 +233,63 @@ def scen_second_delayed_not_early():
         if not reached.wait(3):
             go.set(); t.join(2)
             return ["consumer never went to sleep on the delayed head"]
-        r = q.remove(lambda e: e == "A")
+        r = q.remove(lambda e: e is A)
         go.set()
         t.join(3)
         out = []
-        if r != "A":
+        if r is not A:
             out.append(f"remove returned {r!r}")
-        if not got or got[0][0] != "B":
-            out.append(f"get() returned {got!r}, expected 'B'")
+        if not got or got[0][0] is not B:
+            out.append(f"get() returned {got!r}, expected 'B'{' (A and B are distinct objects that compare equal)' if equal else ''}")
         elif got[0][1] < tB + D - 1e-9:
             out.append(f"delayed element B handed out {got[0][1] - tB:.1f}s after its insertion, before its delay of {D}s")
+        return out
+    return with_fake(body)
+
+
+def scen_woken_then_removed():
+    """consumer blocked on the empty queue; put(X) wakes it; remove() takes X out before the woken consumer gets the
+    lock back: the consumer must wait again and return the next element"""
+    def body(ft):
+        q = DelayedQueue(D)
+        gl = GateLock(q._lock)
+        gl._is_owned = lambda: gl.owner == threading.current_thread().name
+        q._lock = gl
+        q._not_empty = threading.Condition(gl)
+        gl.park_thread, gl.park_at = "consumer", 2   # #1 = entry of get(), #2 = re-acquire inside wait()
+        got, err = [], []
+
+        def consume():
+            try:
+                got.append(q.get())
+            except Exception as e:  # noqa: BLE001
+                err.append(repr(e))
+        t = threading.Thread(target=consume, name="consumer")
+        t.start()
+        for _ in range(200):          # consumer inside wait(): lock released, one waiter registered
+            if gl.count.get("consumer", 0) >= 1 and gl.owner is None and q._not_empty._waiters:
+                break
+            realtime.sleep(0.005)
+        q.put("X", delay=False)
+        if not gl.reached.wait(3):
+            gl.go.set(); t.join(2)
+            return ["consumer was not woken by put()"]
+        r = q.remove(lambda e: e == "X")
+        gl.go.set()
+        realtime.sleep(0.05)
+        out = []
+        if r != "X":
+            out.append(f"remove returned {r!r}")
+        if err:
+            out.append(f"get() raised {err[0]} after the element that woke it was removed")
+        elif got:
+            out.append(f"get() returned {got!r} although the queue was empty and not closed")
+        q.put("Y", delay=False)
+        t.join(3)
+        if not err and got != ["Y"]:
+            out.append(f"get() returned {got!r}, expected ['Y']")
+        q.close()
+        t.join(1)
         return out
     return with_fake(body)
 
@@ -248,7 +313,9 @@ def scen_close_unblocks():
 
 
 SCEN = {"remove-head-nodelay": lambda: scen_remove_head_before_pop(False), "remove-head-delayed": lambda: scen_remove_head_before_pop(True),
-        "get-during-remove-scan": scen_get_during_remove_scan, "second-delayed-not-early": scen_second_delayed_not_early, "close-unblocks": scen_close_unblocks}
+        "get-during-remove-scan": scen_get_during_remove_scan, "second-delayed-not-early": scen_second_delayed_not_early, "close-unblocks": scen_close_unblocks,
+        "remove-head-nodelay-equal-elements": lambda: scen_remove_head_before_pop(False, True), "remove-head-delayed-equal-elements": lambda: scen_remove_head_before_pop(True, True),
+        "second-delayed-not-early-equal-elements": lambda: scen_second_delayed_not_early(True), "woken-then-removed": scen_woken_then_removed}
 
 
 def main():
